@@ -319,7 +319,8 @@ static void exec_op(int idx, OpLine *o)
         fprintf(g_out, "r %d R rc=%d null=%d\n", idx, rc, g_slot[sl] == NULL);
         /* a refused source (another alphabet, unreadable file) leaves the collection as it was: with read_fail_keeps
            the caller goes on using the object it already had */
-        if (rc != 0) { g_failed = 1; if (!(g_read_fail_keeps && g_slot[sl])) g_slot_failed[sl] = 1; }
+        int keep = g_read_fail_keeps && o->ntok > 4 && atoi(o->tok[4]);      /* only the reads the plan marks: an unexpected refusal ends the use of the object */
+        if (rc != 0) { g_failed = 1; if (!(keep && g_slot[sl])) g_slot_failed[sl] = 1; }
         sim_xfree(path);
     } else if (!strcmp(op, "X")) {
         int sl = atoi(o->tok[1]);
